@@ -1893,17 +1893,19 @@ int XMLDateTime::fillYearString(XMLCh*& ptr, int value) const
         negativeYear = 1;
     }
     XMLSize_t i;
+    // number of digits, without the sign
+    const XMLSize_t digits = actualLen - negativeYear;
     //append leading zeros
-    if(actualLen+negativeYear < 4)
-        for (i = 0; i < 4 - actualLen+negativeYear; i++)
+    if(digits < 4)
+        for (i = 0; i < 4 - digits; i++)
             *ptr++ = chDigit_0;
 
     for (i = negativeYear; i < actualLen; i++)
         *ptr++ = strBuffer[i];
 
-    if(actualLen > 4)
-        return (int)actualLen-4;
-    return 0;
+    // tell the caller how many characters beyond the usual four were written
+    // (the sign of a negative year counts, too)
+    return (int)(negativeYear + (digits > 4 ? digits : 4) - 4);
 }
 
 /***
